@@ -328,7 +328,7 @@ struct Gen {
             case 0: case 1: return { rng.coin() ? "WOPR" : "WWPR" };
             case 2: return { "WUA" };
             case 3: {
-                std::string p = rng.pick(Strs{ "P*", "I*", "*", "P*1", "X*", "P?*", "*1", "?*", "I*?", "P*.*", "*L1", "*L*", "*PL", "*NOLIST", "P??*", "*?1", "**", "P1*" });
+                std::string p = rng.pick(Strs{ "P*", "I*", "*", "P*1", "X*", "P?*", "*1", "?*", "I*?", "P*.*", "*L1", "*L*", "*PL", "*NOLIST", "P??*", "*?1", "**", "P1*", "\\*1", "\\P*", "P?", "P1" });
                 patterns.insert(p);
                 return { rng.coin(1, 8) ? "WGOR" : (rng.coin() ? "WOPR" : "WUA"), "'" + p + "'" };
             }
@@ -967,6 +967,9 @@ static std::vector<std::optional<double>> randSortArg(vh::Rng& rng, int n) {
         if (rng.coin(pu, 6)) { v.push_back(std::nullopt); continue; }
         double x = static_cast<double>(rng.below(static_cast<uint64_t>(distinct))) * 0.5 - 1.0;
         if (x == 0.0 && rng.coin()) x = -0.0;
+        // values that differ far below single precision, and huge ones: distinct for the comparison
+        if (rng.coin(1, 6)) x += static_cast<double>(rng.range(-3, 3)) * 1e-12;
+        else if (rng.coin(1, 30)) x *= 1e300;
         v.push_back(x);
     }
     return v;
@@ -1788,13 +1791,16 @@ int main(int argc, char** argv) {
                     bool listPat = w.hasWlm && !w.wlists.empty() && rng.coin(1, 4);
                     std::string pat = listPat ? rng.pick(Strs{ "*L1", "*L2", "*PL", "*L*", "*LIST10", "*?L", "*L?" }) : randPattern(rng, rng.pick(w.wells));
                     if (pat.find('*') == std::string::npos) pat += "*";
-                    if (!listPat && pat[0] == '*' && pat.size() > 1) pat = "?" + pat;      // a leading `*` means a well list
+                    bool escaped = !listPat && rng.coin(1, 5);                              // '\*P*': the backslash is dropped
+                    if (!listPat && !escaped && pat[0] == '*' && pat.size() > 1) pat = "?" + pat;      // a leading `*` means a well list
+                    const std::string body = pat;
+                    if (escaped) pat = "\\" + pat;
                     std::set<std::string> expect;
                     if (listPat) {
                         for (auto& kv : w.wlists)
                             if (kv.first == pat || (w.wlists.count(pat) == 0 && refGlob(pat.substr(1), kv.first.substr(1))))
                                 expect.insert(kv.second.begin(), kv.second.end());
-                    } else for (auto& well : w.wells) if (refGlob(pat, well)) expect.insert(well);
+                    } else for (auto& well : w.wells) if (refGlob(body, well)) expect.insert(well);
                     Strs got = env.wm.wells(pat), got2 = env2.wm.wells(pat);
                     Strs want, want2;
                     for (auto& well : w.wells) if (expect.count(well)) want.push_back(well);
